@@ -45,6 +45,10 @@ CHECKS = {
          "Every element's and attribute's expanded name, every element's in-scope namespace set, and 19-29 name tests / name functions per binding set are compared with the reference on every enumerated layout; consistent prefix renamings of the document and of the caller's bindings must not change results.",
          "Trusts the scope resolution in mc/src/model/xpath.rs XTree::from_adoc; layouts beyond k deviations and other skeletons are not covered; xq --setns is exercised in C17.",
          "DESIGN.md §5 C10"),
+ "C11": ("bounded-exhaustive attribute value literals (all sequences of <= n parts over 20 parts) x declared types, and default kinds x types x written/absent x 8 declaration placements, against XML 1.0 3.3.3 computed on the abstract value",
+         "Every enumerated attribute value and defaulting layout is parsed and the value, specified flag, get_attribute, attribute count and XPath string value are compared with the normalization algorithm applied step by step to the abstract value; the attributes are read both before and after the element content.",
+         "Trusts Dtd::normalize_parts / Dtd::attributes in mc/src/model/adoc.rs; a literal CR LF may give one or two spaces (the property does not mention XML 1.0 2.11); entities whose replacement text holds '&' or '<' are outside the model.",
+         "DESIGN.md §5 C11"),
  "C12": ("explicit-state BFS over DOM call histories on the real xml_dom objects (state = history, re-executed from a fresh parse; canonical-key dedup), tree invariants evaluated after every transition and attributed to the transition that introduces them",
          "Every DOM Level 1 structural mutator, factory, attribute operation and split_text is applied with every receiver/argument choice among all live handles (attached, detached, created, foreign, document, attributes, text) to every reachable state up to the depth bound; in every reached state all navigation views of all live nodes are cross-checked.",
          "Node identity is (kind, XmlNode::id()); states beyond the depth bound and more than one created node per history are not covered.",
